@@ -1,11 +1,553 @@
-//! C30 (not built yet)
-use crate::report::{Disagreement, Run};
-use serde_json::Value;
+//! C30 Styles are stored and read back faithfully.
+//!
+//! Finite sweep: the default style with every single attribute deviation, every pair and every
+//! triple of compatible deviations, assigned to a cell, a row and a column and read back; and every
+//! assignment sequence of length 2 (thorough: 3) built from deviation tuples (unrelated styles, a style and
+//! its one-deviation neighbour in both orders) over six target pairs, with and without a named style that
+//! shares the first style and is updated between the assignments. After every assignment every assigned
+//! target must read back exactly the style last assigned to it.
 
-pub fn run(run: &mut Run) {
-    run.machinery_errors.push("C30: check not built yet".into());
+use crate::report::{Disagreement, Run};
+use ironcalc_base::types::{
+    Alignment, BorderItem, BorderStyle, Color, FontScheme, HorizontalAlignment, Style, StyleIncludes, Styles,
+    VerticalAlignment,
+};
+use ironcalc_base::Model;
+use serde::{Deserialize, Serialize};
+use serde_json::{json, Value};
+use std::collections::{BTreeMap, BTreeSet, HashSet};
+
+pub struct Dev {
+    key: String,
+    name: String,
+    f: Box<dyn Fn(&mut Style) + Send + Sync>,
 }
 
-pub fn replay(_case: &Value) -> Vec<Disagreement> {
-    vec![]
+fn dev(key: &str, name: String, f: impl Fn(&mut Style) + Send + Sync + 'static) -> Dev {
+    Dev { key: key.to_string(), name, f: Box::new(f) }
+}
+
+fn rgb(s: &str) -> Color {
+    Color::Rgb(s.to_string())
+}
+
+pub fn deviations() -> Vec<Dev> {
+    let mut v = vec![];
+    v.push(dev("font.b", "font.b".into(), |s| s.font.b = true));
+    v.push(dev("font.i", "font.i".into(), |s| s.font.i = true));
+    v.push(dev("font.u", "font.u".into(), |s| s.font.u = true));
+    v.push(dev("font.strike", "font.strike".into(), |s| s.font.strike = true));
+    for sz in [10, 14] {
+        v.push(dev("font.sz", format!("font.sz={}", sz), move |s| s.font.sz = sz));
+    }
+    for (n, c) in [("rgb", rgb("#FF0000")), ("theme", Color::Theme(4, 0.0)), ("theme-tint", Color::Theme(4, 0.4))] {
+        v.push(dev("font.color", format!("font.color={}", n), move |s| s.font.color = c.clone()));
+    }
+    v.push(dev("font.name", "font.name=Arial".into(), |s| s.font.name = "Arial".to_string()));
+    v.push(dev("font.family", "font.family=1".into(), |s| s.font.family = 1));
+    v.push(dev("font.scheme", "font.scheme=major".into(), |s| s.font.scheme = FontScheme::Major));
+    v.push(dev("font.scheme", "font.scheme=none".into(), |s| s.font.scheme = FontScheme::None));
+    for (n, c) in [("rgb", rgb("#00FF00")), ("theme-tint", Color::Theme(5, -0.25))] {
+        v.push(dev("fill.color", format!("fill.color={}", n), move |s| s.fill.color = c.clone()));
+    }
+    for side in ["left", "right", "top", "bottom", "diagonal"] {
+        for (bn, bs) in [("thin", BorderStyle::Thin), ("medium", BorderStyle::Medium), ("double", BorderStyle::Double)] {
+            for (cn, c) in [("nocolor", Color::None), ("black", rgb("#000000"))] {
+                let bs = bs.clone();
+                v.push(dev(
+                    &format!("border.{}", side),
+                    format!("border.{}={}/{}", side, bn, cn),
+                    move |s| {
+                        let item = Some(BorderItem { style: bs.clone(), color: c.clone() });
+                        match side {
+                            "left" => s.border.left = item,
+                            "right" => s.border.right = item,
+                            "top" => s.border.top = item,
+                            "bottom" => s.border.bottom = item,
+                            _ => s.border.diagonal = item,
+                        }
+                    },
+                ));
+            }
+        }
+    }
+    v.push(dev("border.diagonal_up", "border.diagonal_up".into(), |s| s.border.diagonal_up = true));
+    v.push(dev("border.diagonal_down", "border.diagonal_down".into(), |s| s.border.diagonal_down = true));
+    v.push(dev("alignment", "alignment=Some(default)".into(), |s| {
+        s.alignment.get_or_insert_with(Alignment::default);
+    }));
+    for h in [
+        HorizontalAlignment::Center,
+        HorizontalAlignment::CenterContinuous,
+        HorizontalAlignment::Distributed,
+        HorizontalAlignment::Fill,
+        HorizontalAlignment::Justify,
+        HorizontalAlignment::Left,
+        HorizontalAlignment::Right,
+    ] {
+        v.push(dev("alignment.horizontal", format!("alignment.horizontal={:?}", h), move |s| {
+            s.alignment.get_or_insert_with(Alignment::default).horizontal = h.clone()
+        }));
+    }
+    for a in [
+        VerticalAlignment::Center,
+        VerticalAlignment::Distributed,
+        VerticalAlignment::Justify,
+        VerticalAlignment::Top,
+    ] {
+        v.push(dev("alignment.vertical", format!("alignment.vertical={:?}", a), move |s| {
+            s.alignment.get_or_insert_with(Alignment::default).vertical = a.clone()
+        }));
+    }
+    v.push(dev("alignment.wrap_text", "alignment.wrap_text".into(), |s| {
+        s.alignment.get_or_insert_with(Alignment::default).wrap_text = true
+    }));
+    // every built-in format code typed as a custom string, two custom codes, and Excel's spelling of general
+    let mut codes: Vec<String> = vec![];
+    for id in 1..=49 {
+        let c = ironcalc_base::number_format::get_num_fmt(id, &[]);
+        if c != "general" && !codes.contains(&c) {
+            codes.push(c);
+        }
+    }
+    codes.push("0.000".to_string());
+    codes.push("yyyy-mm-dd".to_string());
+    codes.push("General".to_string());
+    for c in codes {
+        let cc = c.clone();
+        v.push(dev("num_fmt", format!("num_fmt={}", c), move |s| s.num_fmt = cc.clone()));
+    }
+    v.push(dev("quote_prefix", "quote_prefix".into(), |s| s.quote_prefix = true));
+    v
+}
+
+fn compatible(a: &Dev, b: &Dev) -> bool {
+    if a.key == b.key {
+        return false;
+    }
+    let al = |x: &Dev, y: &Dev| x.key == "alignment" && y.key.starts_with("alignment");
+    !(al(a, b) || al(b, a))
+}
+
+fn build(devs: &[Dev], idx: &[usize]) -> Style {
+    let mut s = Style::default();
+    for i in idx {
+        (devs[*i].f)(&mut s);
+    }
+    s
+}
+
+// ---------------------------------------------------------------------------------------------------------
+
+#[derive(Clone, Copy, PartialEq, Eq, Debug, Serialize, Deserialize, PartialOrd, Ord)]
+pub enum Target {
+    Cell(i32, i32),
+    Row(i32),
+    Col(i32),
+}
+
+impl Target {
+    fn kind(&self) -> &'static str {
+        match self {
+            Target::Cell(..) => "cell",
+            Target::Row(..) => "row",
+            Target::Col(..) => "column",
+        }
+    }
+}
+
+pub const TARGET_PAIRS: [(&str, Target, Target); 6] = [
+    ("cell,cell", Target::Cell(1, 1), Target::Cell(2, 2)),
+    ("cell,row", Target::Cell(1, 1), Target::Row(5)),
+    ("cell,column", Target::Cell(1, 1), Target::Col(5)),
+    ("row,column", Target::Row(5), Target::Col(7)),
+    ("cell-in-row,row", Target::Cell(5, 1), Target::Row(5)),
+    ("cell-in-column,column", Target::Cell(1, 5), Target::Col(5)),
+];
+
+fn includes_all() -> StyleIncludes {
+    StyleIncludes { number_format: true, font: true, fill: true, border: true, alignment: true, protection: true }
+}
+
+pub struct Worker {
+    model: Model<'static>,
+    base_styles: Styles,
+}
+
+impl Worker {
+    pub fn new() -> Worker {
+        let model = Model::new_empty("c30", "en", "UTC", "en").expect("new_empty");
+        let base_styles = model.workbook.styles.clone();
+        Worker { model, base_styles }
+    }
+    fn reset(&mut self) {
+        self.model.workbook.styles = self.base_styles.clone();
+        let ws = &mut self.model.workbook.worksheets[0];
+        ws.sheet_data.clear();
+        ws.rows.clear();
+        ws.cols.clear();
+    }
+    fn assign(&mut self, t: Target, s: &Style) -> Result<(), String> {
+        match t {
+            Target::Cell(r, c) => self.model.set_cell_style(0, r, c, s),
+            Target::Row(r) => self.model.set_row_style(0, r, s),
+            Target::Col(c) => self.model.set_column_style(0, c, s),
+        }
+    }
+    fn read(&self, t: Target) -> Result<Option<Style>, String> {
+        match t {
+            Target::Cell(r, c) => self.model.get_style_for_cell(0, r, c).map(Some),
+            Target::Row(r) => self.model.get_row_style(0, r),
+            Target::Col(c) => self.model.get_column_style(0, c),
+        }
+    }
+}
+
+impl Default for Worker {
+    fn default() -> Self {
+        Self::new()
+    }
+}
+
+fn differs(a: &Style, b: &Style) -> String {
+    let mut t = vec![];
+    if a.alignment != b.alignment {
+        t.push("alignment");
+    }
+    if a.num_fmt != b.num_fmt {
+        t.push("num_fmt");
+    }
+    if a.fill != b.fill {
+        t.push("fill");
+    }
+    if a.font != b.font {
+        t.push("font");
+    }
+    if a.border != b.border {
+        t.push("border");
+    }
+    if a.quote_prefix != b.quote_prefix {
+        t.push("quote_prefix");
+    }
+    t.join(",")
+}
+
+fn show(s: &Style) -> String {
+    serde_json::to_string(s).unwrap_or_default()
+}
+
+/// read-back of `t` must be `exp`; a row / column without any style may read `None` when `exp` is the default
+fn check_read(w: &Worker, t: Target, exp: &Style, head: &str, out: &mut Vec<(String, String)>) {
+    match crate::env::guarded(|| w.read(t)) {
+        Err(p) => out.push((
+            format!("{} read={} panic at={}", head, t.kind(), p.split(" @ ").last().unwrap_or("")),
+            format!("reading {:?} panicked: {}", t, p),
+        )),
+        Ok(Err(e)) => out.push((format!("{} read={} error", head, t.kind()), format!("reading {:?}: {}", t, e))),
+        Ok(Ok(None)) => {
+            if *exp != Style::default() {
+                out.push((
+                    format!("{} read={} got=none", head, t.kind()),
+                    format!("{:?} reads back no style, expected {}", t, show(exp)),
+                ));
+            }
+        }
+        Ok(Ok(Some(g))) => {
+            if g != *exp {
+                out.push((
+                    format!("{} read={} differs={}", head, t.kind(), differs(exp, &g)),
+                    format!("{:?}: expected {}\n     read back {}", t, show(exp), show(&g)),
+                ));
+            }
+        }
+    }
+}
+
+/// One style assigned to a cell, a row, a column of a fresh workbook.
+fn sweep_case(w: &mut Worker, s: &Style) -> Vec<(String, String)> {
+    let mut out = vec![];
+    w.reset();
+    for t in [Target::Cell(1, 1), Target::Row(3), Target::Col(3)] {
+        let head = format!("single wrote={}", t.kind());
+        match crate::env::guarded(|| w.assign(t, s)) {
+            Err(p) => {
+                out.push((
+                    format!("{} panic at={}", head, p.split(" @ ").last().unwrap_or("")),
+                    format!("assigning to {:?} panicked: {}", t, p),
+                ));
+                *w = Worker::new();
+                return out;
+            }
+            Ok(Err(e)) => {
+                out.push((format!("{} error", head), format!("assigning {} to {:?}: {}", show(s), t, e)));
+                continue;
+            }
+            Ok(Ok(())) => {}
+        }
+        check_read(w, t, s, &head, &mut out);
+    }
+    // an absent cell of the styled row / column shows that style
+    if out.is_empty() {
+        for (t, via) in [(Target::Cell(3, 9), "row"), (Target::Cell(9, 3), "column")] {
+            check_read(w, t, s, &format!("single wrote={} absent-cell", via), &mut out);
+        }
+    }
+    out
+}
+
+/// Styles assigned alternately to the two targets; after every assignment every assigned target is read back.
+fn seq_case(w: &mut Worker, styles: &[Style], pair: usize, named: bool) -> Vec<(String, String)> {
+    let mut out = vec![];
+    w.reset();
+    let (pname, t1, t2) = TARGET_PAIRS[pair];
+    let tag = if named { " named-style" } else { "" };
+    if named {
+        let r = crate::env::guarded(|| {
+            w.model.create_named_style("mine", &styles[0], includes_all())?;
+            w.model.set_cell_style_by_name(0, 9, 9, "mine")
+        });
+        match r {
+            Ok(Ok(())) => {}
+            Ok(Err(e)) => {
+                out.push((format!("seq{} named-style-setup error", tag), e));
+                return out;
+            }
+            Err(p) => {
+                out.push((format!("seq{} named-style-setup panic at={}", tag, p.split(" @ ").last().unwrap_or("")), p));
+                *w = Worker::new();
+                return out;
+            }
+        }
+    }
+    let mut last: BTreeMap<Target, &Style> = BTreeMap::new();
+    for (i, s) in styles.iter().enumerate() {
+        let t = if i % 2 == 0 { t1 } else { t2 };
+        if named && i > 0 {
+            // the named style follows the style about to be assigned
+            match crate::env::guarded(|| w.model.update_named_style("mine", "mine", s, includes_all())) {
+                Ok(Ok(())) => {}
+                Ok(Err(e)) => {
+                    out.push((format!("seq{} named-style-update error", tag), e));
+                    return out;
+                }
+                Err(p) => {
+                    out.push((
+                        format!("seq{} named-style-update panic at={}", tag, p.split(" @ ").last().unwrap_or("")),
+                        p,
+                    ));
+                    *w = Worker::new();
+                    return out;
+                }
+            }
+            for (tt, exp) in &last {
+                let head = format!("seq{} pair={} after=named-style-update", tag, pname);
+                check_read(w, *tt, exp, &head, &mut out);
+            }
+        }
+        match crate::env::guarded(|| w.assign(t, s)) {
+            Err(p) => {
+                out.push((
+                    format!("seq{} wrote={} panic at={}", tag, t.kind(), p.split(" @ ").last().unwrap_or("")),
+                    format!("assigning to {:?} panicked: {}", t, p),
+                ));
+                *w = Worker::new();
+                return out;
+            }
+            Ok(Err(e)) => {
+                out.push((format!("seq{} wrote={} error", tag, t.kind()), format!("assigning {} to {:?}: {}", show(s), t, e)));
+                return out;
+            }
+            Ok(Ok(())) => {}
+        }
+        last.insert(t, s);
+        for (tt, exp) in &last {
+            let rel = if *tt == t { "same" } else { "other" };
+            let head = format!("seq{} pair={} wrote={} target={}", tag, pname, t.kind(), rel);
+            check_read(w, *tt, exp, &head, &mut out);
+        }
+        if !out.is_empty() {
+            return out;
+        }
+    }
+    out
+}
+
+// ---------------------------------------------------------------------------------------------------------
+// enumeration
+
+/// the style sequences built from an ordered tuple of deviation indices
+fn forms(devs: &[Dev], t: &[usize]) -> Vec<(&'static str, Vec<Style>)> {
+    match t.len() {
+        1 => vec![
+            ("default-then-single", vec![Style::default(), build(devs, t)]),
+            ("single-then-default", vec![build(devs, t), Style::default()]),
+        ],
+        2 => vec![
+            ("unrelated", vec![build(devs, &t[..1]), build(devs, &t[1..])]),
+            ("grow", vec![build(devs, &t[..1]), build(devs, t)]),
+            ("shrink", vec![build(devs, t), build(devs, &t[..1])]),
+        ],
+        _ => vec![
+            ("unrelated", vec![build(devs, &t[..1]), build(devs, &t[1..2]), build(devs, &t[2..])]),
+            ("grow", vec![build(devs, &t[..1]), build(devs, &t[..2]), build(devs, t)]),
+            ("neighbours", vec![build(devs, &t[..2]), build(devs, &t[..1]), build(devs, &[t[0], t[2]])]),
+        ],
+    }
+}
+
+#[derive(Default)]
+pub struct UnitOut {
+    cases: u64,
+    assignments: u64,
+    found: BTreeMap<String, (u64, Value, String)>,
+    outcomes: HashSet<u128>,
+}
+
+fn note(out: &mut UnitOut, found: Vec<(String, String)>, case: impl Fn() -> Value) {
+    for (sig, detail) in found {
+        match out.found.get_mut(&sig) {
+            Some(e) => e.0 += 1,
+            None => {
+                out.found.insert(sig, (1, case(), detail));
+            }
+        }
+    }
+}
+
+/// All work whose first deviation index is `d1`.
+fn unit(devs: &[Dev], d1: usize, thorough: bool) -> UnitOut {
+    let mut out = UnitOut::default();
+    let mut w = Worker::new();
+    let n = devs.len();
+    // sweep: singles, pairs (d1<d2), triples (d1<d2<d3)
+    let sweep = |out: &mut UnitOut, w: &mut Worker, idx: &[usize]| {
+        let s = build(devs, idx);
+        out.cases += 1;
+        out.assignments += 3;
+        out.outcomes.insert(crate::env::digest(&show(&s)));
+        let f = sweep_case(w, &s);
+        note(out, f, || json!({"kind": "single-style", "deviations": idx.iter().map(|i| devs[*i].name.clone()).collect::<Vec<_>>(), "styles": [s.clone()]}));
+    };
+    sweep(&mut out, &mut w, &[d1]);
+    for d2 in d1 + 1..n {
+        if !compatible(&devs[d1], &devs[d2]) {
+            continue;
+        }
+        sweep(&mut out, &mut w, &[d1, d2]);
+        for d3 in d2 + 1..n {
+            if compatible(&devs[d1], &devs[d3]) && compatible(&devs[d2], &devs[d3]) {
+                sweep(&mut out, &mut w, &[d1, d2, d3]);
+            }
+        }
+    }
+    // sequences: ordered tuples starting with d1
+    let mut tuples: Vec<Vec<usize>> = vec![vec![d1]];
+    for d2 in 0..n {
+        if d2 == d1 || !compatible(&devs[d1], &devs[d2]) {
+            continue;
+        }
+        tuples.push(vec![d1, d2]);
+    }
+    let run_tuple = |out: &mut UnitOut, w: &mut Worker, t: &[usize]| {
+        for (fname, styles) in forms(devs, t) {
+            for pair in 0..TARGET_PAIRS.len() {
+                for named in [false, true] {
+                    out.cases += 1;
+                    out.assignments += styles.len() as u64;
+                    let f = seq_case(w, &styles, pair, named);
+                    note(out, f, || json!({"kind": "sequence", "form": fname, "deviations": t.iter().map(|i| devs[*i].name.clone()).collect::<Vec<_>>(),
+                        "styles": styles.clone(), "pair": pair, "named": named}));
+                }
+            }
+        }
+    };
+    for t in &tuples {
+        run_tuple(&mut out, &mut w, t);
+    }
+    if thorough {
+        for d2 in 0..n {
+            if d2 == d1 || !compatible(&devs[d1], &devs[d2]) {
+                continue;
+            }
+            for d3 in 0..n {
+                if d3 == d1 || d3 == d2 || !compatible(&devs[d1], &devs[d3]) || !compatible(&devs[d2], &devs[d3]) {
+                    continue;
+                }
+                run_tuple(&mut out, &mut w, &[d1, d2, d3]);
+            }
+        }
+    }
+    out
+}
+
+pub fn run(run: &mut Run) {
+    let thorough = run.tier.thorough();
+    let devs = deviations();
+    let n = devs.len();
+    let res = crate::env::par_units(n, |u| unit(&devs, u, thorough));
+    let mut outcomes: HashSet<u128> = HashSet::new();
+    let mut assignments = 0u64;
+    for r in res {
+        match r {
+            Ok(o) => {
+                run.evaluations += o.cases;
+                assignments += o.assignments;
+                outcomes.extend(o.outcomes);
+                for (sig, (cnt, case, detail)) in o.found {
+                    run.add(Disagreement { sig: sig.clone(), case, detail });
+                    if let Some(e) = run.clusters.get_mut(&sig) {
+                        e.0 += cnt - 1;
+                    }
+                }
+            }
+            Err(e) => run.machinery_errors.push(format!("unit panicked: {}", e)),
+        }
+    }
+    run.transitions = assignments;
+    run.traces = run.evaluations;
+    run.states = outcomes.len() as u64;
+    run.distinct_outcomes = outcomes.len() as u64;
+    run.nontrivial = run.evaluations;
+    let keys: BTreeSet<String> = devs.iter().map(|d| d.key.clone()).collect();
+    run.bound = json!({
+        "deviations": n,
+        "attribute_fields": keys,
+        "style_sweep": "singles, pairs, triples of compatible deviations",
+        "sequence_length": if thorough { 3 } else { 2 },
+        "sequence_forms": ["default<->single", "unrelated", "grow by one deviation", "shrink / one-deviation neighbours"],
+        "target_pairs": TARGET_PAIRS.iter().map(|t| t.0).collect::<Vec<_>>(),
+        "named_style": [false, true],
+        "assignments": assignments,
+    });
+    run.rule = "every style of the sweep assigned to a cell, a row and a column of a fresh workbook and read back (plus an absent cell of that row / column); every sequence built from every ordered tuple of compatible deviations, over every target pair, with and without a named style that shares the first style and is updated to the next one between assignments; after every assignment every assigned target must read back the style last assigned to it. Every case is non-trivial (non-default, pairwise different styles)".into();
+    let a = build(&devs, &[0]);
+    let b = build(&devs, &[n / 2, n - 1]);
+    run.sample(json!({"kind": "single-style", "styles": [a.clone()]}));
+    run.sample(json!({"kind": "single-style", "styles": [b.clone()]}));
+    run.sample(json!({"kind": "sequence", "styles": [a, b], "pair": 3, "named": true}));
+    run.exhaustive = true;
+    run.assume("attribute values are the listed representatives (two sizes, three colour kinds, three border styles x two colours per side, every non-default alignment value, every built-in number format code and three custom codes)");
+    run.assume("styles are assigned through Model::set_cell_style / set_row_style / set_column_style on one sheet of a fresh workbook per case");
+    run.assume("a row or column that was given the default style may read back None");
+}
+
+pub fn replay(case: &Value) -> Vec<Disagreement> {
+    let styles: Vec<Style> = match serde_json::from_value(case["styles"].clone()) {
+        Ok(s) => s,
+        Err(_) => return vec![],
+    };
+    if styles.is_empty() {
+        return vec![];
+    }
+    let mut w = Worker::new();
+    let found = if case["kind"] == "sequence" {
+        let pair = (case["pair"].as_u64().unwrap_or(0) as usize).min(TARGET_PAIRS.len() - 1);
+        seq_case(&mut w, &styles, pair, case["named"].as_bool().unwrap_or(false))
+    } else {
+        sweep_case(&mut w, &styles[0])
+    };
+    found
+        .into_iter()
+        .map(|(sig, detail)| Disagreement { sig, case: case.clone(), detail })
+        .collect()
 }
